@@ -24,7 +24,7 @@ from typing import Any
 PRELUDE = '''
 import datetime, enum, pathlib, uuid, typing, collections.abc
 from collections.abc import Sequence, Set, Mapping, Callable
-from typing import Any, Literal, Protocol, runtime_checkable, Self, Optional, Union
+from typing import Any, Literal, Protocol, runtime_checkable, Self, Optional, Union, Final, Annotated
 from uuid import UUID
 from pathlib import Path
 from datetime import date, time, timedelta, timezone
